@@ -211,6 +211,12 @@ class Exec:
             w.raw_git(tmp, "commit", "-q", "-m", op.get("msg", "upstream"))
             r = w.raw_git(tmp, "push", "-q", "origin", "main")
             res.update(code=r.code, err=r.err[-300:])
+        elif kind == "add_worktree":
+            # a linked worktree of r0 on a new branch (its private git-ai state lives under .git/ai/worktrees/<name>)
+            path = os.path.join(w.root, op["name"])
+            r = w.raw_git(self.repos["r0"], "worktree", "add", "-q", "-b", op["branch"], path, op.get("start", "HEAD"))
+            self.repos[op["name"]] = path
+            res.update(code=r.code, err=r.err[-300:])
         elif kind == "server_merge":
             # the hosting service merges a pushed branch with PLAIN git: squash merge (one new commit)
             # or rebase merge (the branch's commits re-created on top of main); then main is published
@@ -410,6 +416,67 @@ def pending_attribution(w, repo):
             e["initial"] = entry["initial"]
         if e["files"] or e.get("initial"):
             out[base] = e
+    return out
+
+
+def pending_attribution_by_text(w, repo):
+    """Pending (uncommitted) attribution as the TEXTS of the AI-attributed lines: per working-log base and file, the
+    sorted list of (author, line text), where line numbers of the latest checkpoint entry are resolved against the
+    content snapshot that entry refers to (blobs/<sha>) and INITIAL line numbers against the work tree.  Unlike the
+    numeric view this does not change when a checkpoint merely catches up with what a person typed since."""
+    base_dir = os.path.join(w.ai_dir(repo), "working_logs")
+    out = {}
+    if not os.path.isdir(base_dir):
+        return out
+    for d in sorted(os.listdir(base_dir)):
+        if d.startswith("old-"):
+            continue
+        files = {}
+        cp = os.path.join(base_dir, d, "checkpoints.jsonl")
+        latest = {}
+        if os.path.isfile(cp):
+            with open(cp, "rb") as f:
+                for ln in f.read().decode("utf-8", "replace").splitlines():
+                    try:
+                        j = json.loads(ln) if ln.strip() else None
+                    except ValueError:
+                        files["<malformed>"] = True
+                        j = None
+                    for e in (j or {}).get("entries", []):
+                        latest[e.get("file")] = e
+        for path, e in sorted(latest.items()):
+            lines = None
+            blob = os.path.join(base_dir, d, "blobs", e.get("blob_sha") or "-")
+            if os.path.isfile(blob):
+                with open(blob, "rb") as f:
+                    lines = f.read().decode("utf-8", "replace").split("\n")
+            got = []
+            for a in e.get("line_attributions", []):
+                if a.get("author_id") == "human":
+                    continue
+                for n in range(a.get("start_line", 0), a.get("end_line", 0) + 1):
+                    text = lines[n - 1] if lines is not None and 0 < n <= len(lines) else "#%d" % n
+                    got.append([a.get("author_id"), norm(text)])
+            if got:
+                files[path] = sorted(got)
+        ini = os.path.join(base_dir, d, "INITIAL")
+        if os.path.isfile(ini):
+            try:
+                with open(ini) as f:
+                    j = json.load(f)
+            except (ValueError, OSError):
+                j = {"files": {"<malformed>": []}}
+            for path, attrs in sorted(j.get("files", {}).items()):
+                cur = (w.read(repo, path) or "").split("\n")
+                got = []
+                for a in attrs:
+                    for n in range(a.get("start_line", 0), a.get("end_line", 0) + 1):
+                        text = cur[n - 1] if 0 < n <= len(cur) else "#%d" % n
+                        got.append([a.get("author_id"), norm(text)])
+                if got and path not in files:
+                    files["INITIAL:" + path] = sorted(got)
+        if files:
+            out[d] = files
     return out
 
 
